@@ -259,7 +259,7 @@ def run_both(mode, lines, tag, chunk=20000):
     return impl, drv, problems
 
 
-def res_equal(impl, want, req=None):
+def res_equal(impl, want, req=None, cls=None):
     """`want` may be `err *` (= any error kind: the documentation names no kind).
     Traversals that follow links: siblings are ordered by the name of the FOLLOWED path, two siblings
     can then have the same name and their relative order (with everything below them) is arbitrary:
@@ -275,6 +275,8 @@ def res_equal(impl, want, req=None):
         if len(a) > 5 and a[5] == '1':
             li, lw = impl[5:].split(','), want[5:].split(',')
             if sorted(li) == sorted(lw):
+                if cls == 'follow_name_tie':
+                    return True       # the driver found two siblings with the same followed name in the snapshot
                 base = [x.rsplit('2f', 1)[-1] for x in lw if not x.startswith('E')]
                 return len(set(base)) < len(base)
     return False
@@ -631,7 +633,7 @@ def abs_of_dump(raw):
 # under any other property a hit of such a class is ignored (neither violation nor known finding)
 CLASS_OWNERS = {
     'chmod_zero': ('C01', 'C11'), 'listing_includes_links': ('C01', 'C08'), 'empty_lines_noop': ('C06',),
-    'sym_kind_specific_clauses': ('C11',), 'sym_malformed': ('C11',), 'moved_link_rel_stale': ('C10',), 'link_to_own_dir': ('C10',),
+    'sym_kind_specific_clauses': ('C11',), 'sym_malformed': ('C11',), 'moved_link_rel_stale': ('C10',), 'copied_link_rel_stale': ('C10',), 'copy_follow_link_outside_source': ('C09',), 'link_to_own_dir': ('C10',),
     'contents_first_ignores_filter': ('C08',), 'contents_first_min_depth_order': ('C08',),
     'readlink_msg_names_target': ('C20',), 'write_all_existing_skipped': ('C20',), 'readlink_abs_suffix': ('C20',), 'no_dir_no_file_exists': ('C20',), 'is_symlink_wrong_name': ('C20',), 'symlink_existing_skipped': ('C20',), 'macro_double_resolution': ('C20',), 'copyfile_non_utf8': ('C20',),
 }
@@ -942,6 +944,8 @@ def analyse_sessions(spec, hists, open_known, tag):
                     j = None
                 if j:
                     cls = f[2] if len(f) > 2 else '-'
+                    if cls == 'moved_link_rel_stale' and any(q.startswith('copy_b ') and q.split(' ')[5:6] == ['1'] for q in h[:i + 1]):
+                        cls = 'copied_link_rel_stale'      # move_p keeps rel consistent (proved); only a copy that follows links can leave it stale
                     new_fail.append(dict(history=h, at=i, impl=x, spec=j[0], cls=cls,
                                          why=j[1] + ' (and the implementation no longer behaves like the Lean model' + (f'; inside class {cls} but not with the recorded behaviour' if cls != '-' else '') + ')'))
                 else:
@@ -958,6 +962,8 @@ def analyse_sessions(spec, hists, open_known, tag):
                 judged += 1
                 if j:
                     cls = f[2] if len(f) > 2 else '-'
+                    if cls == 'moved_link_rel_stale' and any(q.startswith('copy_b ') and q.split(' ')[5:6] == ['1'] for q in h[:i + 1]):
+                        cls = 'copied_link_rel_stale'      # move_p keeps rel consistent (proved); only a copy that follows links can leave it stale
                     cls = j[2] if len(j) > 2 and j[2] else cls
                     keep = False
                     if cls != '-' and (cls in spec.get('foreign_classes', ()) or (cls in CLASS_OWNERS and spec['prop'] not in CLASS_OWNERS[cls])):
